@@ -7,15 +7,21 @@
   is whatever `caspailleur` really computes on families that are not closed under intersection.
   All of them hold for every `L_max` (the property asks `L_max ≥ 1`) and every `min_supp = p/q`.
 
-  Trees / forests: sklearn is DATA to the model (the 0/1 decision-path matrix), hence
-  `rf_concepts_genuine_partial` carries the hypothesis that node extents are closed (it fails for proper
-  interval cells: known finding D19).
+  Trees / forests: the fitted trees are DATA of the model (`Fca/Model/RFTree.lean`: the arrays
+  `children_left/right, feature, threshold` — `DL.Tree` of C20 reused — and sklearn's `decision_path` as the per-row
+  descent `DL.pathFrom`; the harness compares the real `decision_path` matrix with it on every fitted tree).
+  `rf_concepts_genuine` is FULL for point-valued interval columns: every tree-node extent is closed
+  (`rf_node_extents_closed`), so every returned pair is a genuine pattern concept, and the all-objects concept is
+  among them.  It FAILS for proper interval cells (`d19_proper_interval_not_genuine`: known finding D19) and on the
+  `FormalContext` path (`formal_path_not_genuine`; `rf_formal_genuine_iff` says exactly when it holds).
 
   Only property theorems live here; helper lemmas are in `Fca/Lemmas/SofiaApprox.lean`.
 -/
 import Fca.Model.SofiaApprox
 import Fca.Spec.C15
 import Fca.Lemmas.SofiaApprox
+import Fca.Model.RFTree
+import Fca.Lemmas.RFTree
 import Fca.Props.C01
 namespace Fca.C15
 open Fca Fca.Spec Fca.SofiaApprox
@@ -273,40 +279,149 @@ theorem tree_extents_distinct_columns (M : List (List Bool)) (w : Nat) :
     (treeExtents M w).Nodup ∧ ∀ A, A ∈ treeExtents M w ↔ ∃ j, j < w ∧ colSupport M j = A :=
   ⟨treeExtents_nodup M w, mem_treeExtents M w⟩
 
-/-- PARTIAL by design: *if* every node extent is closed in the context, the random-forest miner returns
-    only genuine concepts, among them the one with the extent `extension_i(intention_i([]))`.
-    Missing for a full statement: a model of sklearn's fitted trees showing that node extents are closed;
-    this is TRUE for point-valued interval columns and FALSE for proper intervals (finding D19). -/
-theorem rf_concepts_genuine_partial (K : Ctx) (hwf : K.table.WF) (M : List (List Bool)) (w : Nat)
-    (hclosed : ∀ j, j < w → closure K.table (colSupport M j) = colSupport M j) :
-    (∀ c ∈ rfConcepts K M w, c ∈ allConcepts K.table) ∧
-    (extAll K.table (intAll K.table []), intAll K.table (extAll K.table (intAll K.table [])))
-      ∈ rfConcepts K M w := by
+/-- The same miner on a `FormalContext` (and, generally, on any 0/1 context with any path matrix that has one row
+    per object): the returned pairs are all formal concepts EXACTLY WHEN every node extent is closed.  Node extents of
+    a tree fitted on a Boolean table are in general not closed — a left child collects the objects that do NOT have an
+    attribute (`formal_path_not_genuine` below) — which is why the property speaks of many-valued contexts only. -/
+theorem rf_formal_genuine_iff (K : Ctx) (hwf : K.table.WF) (M : List (List Bool)) (w : Nat)
+    (hM : M.length = K.table.height) :
+    (∀ c ∈ rfConcepts K M w, c ∈ allConcepts K.table) ↔
+      ∀ j, j < w → closure K.table (colSupport M j) = colSupport M j := by
   have hint : ∀ A, (∀ g ∈ A, g < K.table.height) → K.intentionI A none = intAll K.table A := by
     intro A hA
     rw [C01.intention_i_exact K hwf A none hA (by intro bs h; cases h)]; rfl
   have hbot : K.extensionI (K.intentionI [] none) none = extAll K.table (intAll K.table []) := by
     rw [hint [] (by simp)]
     rw [C01.extension_i_exact K hwf _ none (intAll_lt K.table) (by intro bs h; cases h)]; rfl
+  have hlt : ∀ j, ∀ g ∈ colSupport M j, g < K.table.height := by
+    intro j g hg
+    have := (List.mem_filter.mp hg).1
+    rw [← hM]; exact List.mem_range.mp this
   constructor
-  · intro c hc
+  · intro h j hj
+    have hmem : (colSupport M j, K.intentionI (colSupport M j) none) ∈ rfConcepts K M w := by
+      simp only [rfConcepts, List.mem_map, List.mem_append, List.mem_singleton]
+      exact ⟨_, Or.inl ((mem_treeExtents M w _).mpr ⟨j, hj, rfl⟩), rfl⟩
+    have hc := h _ hmem
+    rw [hint _ (hlt j), mem_allConcepts, isConcept_iff] at hc
+    exact hc.1
+  · intro hclosed c hc
     simp only [rfConcepts, List.mem_map, List.mem_append, List.mem_singleton] at hc
     obtain ⟨A, hA, rfl⟩ := hc
     rcases hA with hA | hA
     · obtain ⟨j, hj, rfl⟩ := (mem_treeExtents M w A).mp hA
       have hcl := hclosed j hj
-      have hlt : ∀ g ∈ colSupport M j, g < K.table.height := by
-        intro g hg; rw [← hcl] at hg; exact extAll_lt K.table g hg
-      rw [hint _ hlt, mem_allConcepts]
-      have := isConcept_of_objs K.table hlt
+      rw [hint _ (hlt j), mem_allConcepts]
+      have := isConcept_of_objs K.table (hlt j)
       rw [hcl] at this; exact this
     · subst hA
       rw [hbot, hint _ (extAll_lt K.table), mem_allConcepts]
       have h0 : ∀ a ∈ intAll K.table [], a < K.table.width := intAll_lt K.table
       have := isConcept_of_attrs K.table h0
       simpa [closureAttr] using this
-  · simp only [rfConcepts, List.mem_map, List.mem_append, List.mem_singleton]
-    exact ⟨_, Or.inr rfl, by rw [hbot, hint _ (extAll_lt K.table)]⟩
+
+/-- What a node extent is: the rows reaching node `j` in the model's `decision_path` (per-row descent, compared with
+    sklearn's matrix on every fitted tree) are exactly the rows of the matrix that pass every test `x[f] <= thr` (where the
+    root-to-`j` path goes left) / `x[f] > thr` (where it goes right). -/
+theorem tree_node_extent_is_path_tests (t : DL.Tree) (hok : RF.treeOK t t.n 0 = true) (X : DL.Rows) (j : Nat)
+    (hj : j < t.n) :
+    colSupport (RF.pathMatrix [t] X) j = (List.range X.length).filter fun g =>
+      match RF.testsTo t j t.n 0 with
+      | some ts => RF.passes (X.getD g []) ts
+      | none => false :=
+  RF.colSupport_eq_tests t hok X j hj
+
+/-- Every node extent of a fitted forest — the rows of the context whose values pass every test `x[f] <= thr` /
+    `x[f] > thr` on the way from the root to the node, i.e. a column support of `decision_path` — is closed in the
+    interval pattern structure, when the cells are points: an object inside the coordinate-wise hull of the node's rows
+    passes every half-space test that all of them pass. -/
+theorem rf_node_extents_closed (D : RF.IRows) (k : Nat) (cast : Rat → Rat) (ts : List DL.Tree) (hk : 0 < k)
+    (hrect : RF.rect D k = true) (hpt : RF.pointValued D = true) (hmono : RF.castMonoOn cast D = true)
+    (hts : RF.forestOK ts = true) (j : Nat) :
+    RF.closure D k (colSupport (RF.pathMatrix ts (RF.castRows cast (RF.toNumeric D))) j)
+      = colSupport (RF.pathMatrix ts (RF.castRows cast (RF.toNumeric D))) j :=
+  RF.colSupport_closed hk hrect hpt hmono hts j
+
+/-- FULL for point-valued interval columns (numeric data; every float64 table, the trees being DATA of the model:
+    any arrays `children_left/right, feature, threshold` in which the two subtrees of a node share no node, any
+    number of trees, any monotone cast): every pair returned by `random_forest_concepts` is a genuine pattern concept
+    of the context — `extension_i(intent) = extent` and `intent = intention_i(extent)` — and the concept of ALL objects
+    is among them (the root of the first tree).  The extents are exactly the distinct node row sets plus
+    `extension_i(intention_i([]))` (`tree_extents_distinct_columns`). -/
+theorem rf_concepts_genuine (D : RF.IRows) (k : Nat) (cast : Rat → Rat) (ts : List DL.Tree) (hk : 0 < k)
+    (hrect : RF.rect D k = true) (hpt : RF.pointValued D = true) (hmono : RF.castMonoOn cast D = true)
+    (hts : RF.forestOK ts = true) :
+    (∀ c ∈ RF.rfConceptsMV D k cast ts, RF.isPatternConcept D k c.1 c.2) ∧
+    (∀ t rest, ts = t :: rest → 0 < t.n →
+      (List.range D.length, RF.intentionI D k (List.range D.length)) ∈ RF.rfConceptsMV D k cast ts) := by
+  constructor
+  · intro c hc
+    simp only [RF.rfConceptsMV, RF.rfExtents, List.mem_map, List.mem_append, List.mem_singleton] at hc
+    obtain ⟨A, hA, rfl⟩ := hc
+    refine ⟨?_, rfl⟩
+    rcases hA with hA | hA
+    · obtain ⟨j, _, rfl⟩ := (mem_treeExtents _ _ A).mp hA
+      exact RF.colSupport_closed hk hrect hpt hmono hts j
+    · subst hA
+      have h0 : RF.extensionI D (RF.intentionI D k []) = [] := RF.closure_nil D k hk
+      rw [h0]
+      exact RF.closure_nil D k hk
+  · intro t rest hts' hn
+    simp only [RF.rfConceptsMV, RF.rfExtents, List.mem_map, List.mem_append, List.mem_singleton]
+    refine ⟨_, Or.inl ((mem_treeExtents _ _ _).mpr ⟨0, ?_, ?_⟩), rfl⟩
+    · rw [hts']; simp only [RF.nNodes, List.map_cons, List.sum_cons]; omega
+    · have hlen := RF.pathMatrix_length D cast ts
+      unfold colSupport
+      rw [hlen]
+      apply List.filter_eq_self.mpr
+      intro g hg
+      rw [RF.pathMatrix_entry D cast ts (List.mem_range.mp hg) 0, hts']
+      simp only [RF.locate, hn, if_true]
+      obtain ⟨tl, htl⟩ : ∃ tl, DL.pathFrom t (RF.numRow cast (D.getD g [])) t.n 0 = 0 :: tl := by
+        cases hn' : t.n with
+        | zero => omega
+        | succ m =>
+          unfold DL.pathFrom
+          split
+          · split
+            · exact ⟨_, rfl⟩
+            · split <;> exact ⟨_, rfl⟩
+          · exact ⟨_, rfl⟩
+      rw [htl]; simp
+
+/-- What the driver evaluates on every case (`castTableOK`: the float32 table is listed with strictly increasing keys
+    and non-decreasing images, and covers every number of the context) implies the monotonicity hypothesis of
+    `rf_concepts_genuine`. -/
+theorem rf_cast_table_mono (tbl : List (Rat × Rat)) (D : RF.IRows) (h : RF.castTableOK tbl D = true) :
+    RF.castMonoOn (RF.castOfList tbl) D = true := RF.castMonoOn_of_table h
+
+/-- The order in which scipy lists the rows of a node does not matter: the intent depends on the set of rows only. -/
+theorem rf_intent_order_free (D : RF.IRows) (k : Nat) {A B : List Nat} (h : A.Perm B) :
+    RF.intentionI D k A = RF.intentionI D k B := RF.intentionI_perm D k h
+
+/-! ### the documented counterexamples -/
+
+/-- D19 (known finding): with a PROPER interval cell the statement fails.  Context `[[(2,2)], [(1,2)]]`, one tree
+    whose root tests `0_from <= 3/2`: the left child is reached by object 1 only, but the description of object 1 is
+    `(1, 2)`, which also covers object 0 — the returned pair `([1], (1,2))` is not a pattern concept. -/
+def d19Data : RF.IRows := [[(2, 2)], [(1, 2)]]
+def d19Tree : DL.Tree := ⟨[1, -1, -1], [2, -1, -1], [0, -2, -2], [3 / 2, -2, -2], [0, 0, 0]⟩
+
+theorem d19_proper_interval_not_genuine :
+    RF.rect d19Data 1 = true ∧ RF.castMonoOn id d19Data = true ∧ RF.forestOK [d19Tree] = true ∧
+    RF.pointValued d19Data = false ∧
+    ([1], [some (1, 2)]) ∈ RF.rfConceptsMV d19Data 1 id [d19Tree] ∧
+    RF.closure d19Data 1 [1] = [0, 1] := by decide +kernel
+
+/-- The `FormalContext` path (outside the property): objects `{a}`, `{b}`, `{}` and a tree whose root tests
+    `a <= 1/2`; the left child collects the objects WITHOUT attribute `a`, the returned pair `([1, 2], [])` is not a
+    formal concept (the extent of `[]` is `[0, 1, 2]`). -/
+def formalK : Ctx := ⟨.bitarray, Table.mk [[true, false], [false, true], [false, false]] 2, [], []⟩
+def formalTree : DL.Tree := ⟨[1, -1, -1], [2, -1, -1], [0, -2, -2], [1 / 2, -2, -2], [0, 0, 0]⟩
+
+theorem formal_path_not_genuine :
+    ([1, 2], []) ∈ RF.rfConceptsFormal formalK [formalTree] ∧ ([1, 2], []) ∉ allConcepts formalK.table := by
+  decide +kernel
 
 /-! ### the hypotheses are satisfiable -/
 
@@ -332,6 +447,20 @@ example : (sofia (fun _ l => l) true ⟨0, 1⟩ 5
 example : (sofia (fun _ l => l) false ⟨0, 1⟩ 1
       ⟨.bitarray, Table.mk [[true, false], [true, true], [false, true]] 2, [], []⟩).toOption
     = some [([1], [0, 1]), ([0, 1, 2], [])] := by decide
+/-- a point-valued context with two interval columns and a forest of two (identical) five-node trees meeting every
+    hypothesis of `rf_concepts_genuine`, and what the model returns on it -/
+def ptData : RF.IRows := [[(1, 1), (5, 5)], [(2, 2), (5, 5)], [(3, 3), (4, 4)]]
+def ptTree : DL.Tree :=
+  ⟨[1, -1, 3, -1, -1], [2, -1, 4, -1, -1], [0, -2, 3, -2, -2], [3 / 2, -2, 9 / 2, -2, -2], [0, 0, 0, 0, 0]⟩
+example : RF.testsTo ptTree 3 ptTree.n 0 = some [(0, 3 / 2, false), (3, 9 / 2, true)] := by decide +kernel
+example : RF.rect ptData 2 = true ∧ RF.pointValued ptData = true ∧ RF.castMonoOn id ptData = true ∧
+    RF.forestOK [ptTree, ptTree] = true ∧
+    RF.rfConceptsMV ptData 2 id [ptTree, ptTree] =
+      [([0, 1, 2], [some (1, 3), some (4, 5)]), ([0], [some (1, 1), some (5, 5)]),
+       ([1, 2], [some (2, 3), some (4, 5)]), ([2], [some (3, 3), some (4, 4)]),
+       ([1], [some (2, 2), some (5, 5)]), ([], [none, none])] := by decide +kernel
+/-- a cast that is monotone without being injective (two neighbouring values collapse, as in float32) -/
+example : RF.castMonoOn (RF.castOfList [(2, 3)]) ptData = true := by decide +kernel
 /-- a decision-path matrix whose node extents are closed in the 2-object nominal context -/
 example : ∀ j, j < 3 → closure (Table.mk [[true, false], [false, true]] 2)
     (colSupport [[true, true, false], [true, false, true]] j) = colSupport [[true, true, false], [true, false, true]] j := by
